@@ -1,8 +1,393 @@
 import MetadorModel.Py.DrvLib
-/-! Driver stub (to be filled in). -/
-open MetadorModel
+import MetadorModel.Model.Codec
+import MetadorModel.Model.Subtype
+/-!
+Driver for the codec / subtype models (C12, C13, C20).
 
-def step (s : Unit) : List String → Unit × String
+Terms: `atom` or `tag(term,...)`; atoms never contain `(`, `)`, `,` or blanks.
+  types   bool int float str nes mime hash qhash dur unit qty lit(s:<hex>,i:<int>,T,F)
+          opt(t) union(t,..) list(t) set(t) ann(t) model(Name)
+  json    null true false i:<int> r:<hex of float repr> s:<hex> arr(j,..) obj(kv(<hex>,j),..)
+  values  none true false i:<int> f:<hex> s:<hex> d:<hex> u:<hex> q:<hex> list(v,..) set(v,..)
+          objv(Name,f(<hex>,v)..,c(<hex>,json)..,x(<hex>,json)..)
+Lines:
+  nf <dur|unit|qty> <hex in> <hex out | !>     graph of the library normalisers
+  cls <Name> <allow|ignore|forbid> fld(<hex>,ty,req|opt,<json>|-).. const(<hex>,json)..   effective schema
+  def <Name> <Parent|-> <extra|-> fld(<hex>,ty,<json>|-).. const(..).. ovr(<hex>).. mand(<hex>).. [constovr]
+  build                                         class construction rules for the `def` table
+  dec <ty> <json> | encdec <ty> <json> | acc <ty> <json> | enc <value> | sub <ty> <ty> | chk <Name>
+-/
+open MetadorModel MetadorModel.Drv MetadorModel.Codec MetadorModel.Subtype
+
+inductive Tree
+  | atom (s : String)
+  | node (tag : String) (kids : List Tree)
+deriving Repr, Inhabited
+
+/-- recursive descent with fuel; returns the tree and the rest of the input -/
+def isStop (c : Char) : Bool := c == '(' || c == ')' || c == ','
+
+mutual
+def parseTree : Nat → List Char → Option (Tree × List Char)
+  | 0, _ => none
+  | fuel + 1, cs =>
+    let head := cs.takeWhile (fun c => !isStop c)
+    let rest := cs.dropWhile (fun c => !isStop c)
+    match rest with
+    | '(' :: ')' :: r => some (.node (String.ofList head) [], r)
+    | '(' :: r =>
+      match parseKids fuel r with
+      | some (kids, r') => some (.node (String.ofList head) kids, r')
+      | none => none
+    | r => some (.atom (String.ofList head), r)
+def parseKids : Nat → List Char → Option (List Tree × List Char)
+  | 0, _ => none
+  | fuel + 1, cs =>
+    match parseTree fuel cs with
+    | some (t, ',' :: r) =>
+      match parseKids fuel r with
+      | some (ts, r') => some (t :: ts, r')
+      | none => none
+    | some (t, ')' :: r) => some ([t], r)
+    | _ => none
+end
+
+def parseTerm (s : String) : Option Tree :=
+  match parseTree (s.length + 2) s.toList with
+  | some (t, []) => some t
+  | _ => none
+
+def unhexL (s : String) : Option Str :=
+  if s == "-" || s == "" then some [] else (unhex s.toList).map (fun l => l.map Char.ofNat)
+
+def hexL (s : Str) : String := hex (s.map Char.toNat)
+
+def afterColon (s : String) : String := String.ofList (s.toList.drop 2)
+
+def parseInt? (s : String) : Option Int := intOfStr? s.toList
+
+def parseLit : Tree → Option Lit
+  | .atom "T" => some (.bool true)
+  | .atom "F" => some (.bool false)
+  | .atom a =>
+    if a.startsWith "i:" then (parseInt? (afterColon a)).map .int
+    else if a.startsWith "s:" then (unhexL (afterColon a)).map .str
+    else none
+  | _ => none
+
+def allSome {α : Type} : List (Option α) → Option (List α)
+  | [] => some []
+  | some a :: r => (allSome r).map (a :: ·)
+  | none :: _ => none
+
+/-- types with name-only schema references -/
+partial def parseTy : Tree → Option Ty
+  | .atom "bool" => some .bool
+  | .atom "int" => some .int
+  | .atom "float" => some .float
+  | .atom "str" => some .str
+  | .atom "nes" => some (.cstr .nes)
+  | .atom "mime" => some (.cstr .mime)
+  | .atom "hash" => some (.cstr .hash)
+  | .atom "qhash" => some (.cstr .qhash)
+  | .atom "dur" => some (.opq .dur)
+  | .atom "unit" => some (.opq .unit)
+  | .atom "qty" => some (.opq .qty)
+  | .node "lit" ks => (allSome (ks.map parseLit)).map .lit
+  | .node "opt" [t] => (parseTy t).map .opt
+  | .node "list" [t] => (parseTy t).map .list
+  | .node "set" [t] => (parseTy t).map .set
+  | .node "ann" [t] => (parseTy t).map .ann
+  | .node "union" ks => (allSome (ks.map parseTy)).map .union
+  | .node "model" [.atom n] => some (.model n.toList .allow [] [])
+  | _ => none
+
+partial def parseJson : Tree → Option Json
+  | .atom "null" => some .null
+  | .atom "true" => some (.bool true)
+  | .atom "false" => some (.bool false)
+  | .atom a =>
+    if a.startsWith "i:" then (parseInt? (afterColon a)).map .int
+    else if a.startsWith "r:" then (unhexL (afterColon a)).map .float
+    else if a.startsWith "s:" then (unhexL (afterColon a)).map .str
+    else none
+  | .node "arr" ks => (allSome (ks.map parseJson)).map .arr
+  | .node "obj" ks =>
+    (allSome (ks.map (fun k => match k with
+      | .node "kv" [.atom h, v] =>
+        match unhexL h, parseJson v with
+        | some key, some j => some (key, j)
+        | _, _ => none
+      | _ => none))).map .obj
+  | _ => none
+
+def parseKV (k : Tree) : Option (Str × Json) :=
+  match k with
+  | .node _ [.atom h, v] =>
+    match unhexL h, parseJson v with
+    | some key, some j => some (key, j)
+    | _, _ => none
+  | _ => none
+
+partial def parseVal : Tree → Option PyVal
+  | .atom "none" => some .none
+  | .atom "true" => some (.bool true)
+  | .atom "false" => some (.bool false)
+  | .atom a =>
+    if a.startsWith "i:" then (parseInt? (afterColon a)).map .int
+    else if a.startsWith "f:" then (unhexL (afterColon a)).map .float
+    else if a.startsWith "s:" then (unhexL (afterColon a)).map .str
+    else if a.startsWith "d:" then (unhexL (afterColon a)).map (.opq .dur)
+    else if a.startsWith "u:" then (unhexL (afterColon a)).map (.opq .unit)
+    else if a.startsWith "q:" then (unhexL (afterColon a)).map (.opq .qty)
+    else none
+  | .node "list" ks => (allSome (ks.map parseVal)).map .list
+  | .node "set" ks => (allSome (ks.map parseVal)).map .set
+  | .node "objv" (.atom n :: ks) =>
+    let fs := ks.filterMap (fun k => match k with
+      | .node "f" [.atom h, v] =>
+        match unhexL h, parseVal v with
+        | some key, some x => some (key, x)
+        | _, _ => none
+      | _ => none)
+    let cs := ks.filterMap (fun k => match k with
+      | .node "c" _ => parseKV k
+      | _ => none)
+    let xs := ks.filterMap (fun k => match k with
+      | .node "x" _ => parseKV k
+      | _ => none)
+    if fs.length + cs.length + xs.length == ks.length then some (.obj n.toList fs cs xs) else none
+  | _ => none
+
+def showInt (i : Int) : String := toString i
+
+partial def showJson : Json → String
+  | .null => "null"
+  | .bool true => "true"
+  | .bool false => "false"
+  | .int i => "i:" ++ showInt i
+  | .float t => "r:" ++ hexL t
+  | .str s => "s:" ++ hexL s
+  | .arr xs => "arr(" ++ ",".intercalate (xs.map showJson) ++ ")"
+  | .obj kvs => "obj(" ++ ",".intercalate (kvs.map (fun p => "kv(" ++ (if p.1.isEmpty then "-" else hexL p.1) ++ "," ++ showJson p.2 ++ ")")) ++ ")"
+
+def opqTag : Opq → String
+  | .dur => "d:"
+  | .unit => "u:"
+  | .qty => "q:"
+
+partial def showVal : PyVal → String
+  | .none => "none"
+  | .bool true => "true"
+  | .bool false => "false"
+  | .int i => "i:" ++ showInt i
+  | .float t => "f:" ++ hexL t
+  | .str s => "s:" ++ hexL s
+  | .opq k s => opqTag k ++ hexL s
+  | .list vs => "list(" ++ ",".intercalate (vs.map showVal) ++ ")"
+  | .set vs => "set(" ++ ",".intercalate (vs.map showVal) ++ ")"
+  | .obj n fs cs xs =>
+    "objv(" ++ ",".intercalate ([String.ofList n] ++ fs.map (fun p => "f(" ++ hexL p.1 ++ "," ++ showVal p.2 ++ ")")
+      ++ cs.map (fun p => "c(" ++ hexL p.1 ++ "," ++ showJson p.2 ++ ")")
+      ++ xs.map (fun p => "x(" ++ (if p.1.isEmpty then "-" else hexL p.1) ++ "," ++ showJson p.2 ++ ")")) ++ ")"
+
+/-- effective schema with name-only references in the field types -/
+structure ESchema where
+  name : Str
+  extra : Extra
+  fields : List (Str × Ty × Bool × Option Json)
+  consts : List (Str × Json)
+
+structure St where
+  nfDur : List (Str × Option Str) := []
+  nfUnit : List (Str × Option Str) := []
+  nfQty : List (Str × Option Str) := []
+  eff : List ESchema := []
+  defs : Table := []
+
+def lookupNF (k : Str) : List (Str × Option Str) → Option (Option Str)
+  | [] => none
+  | (k', v) :: r => if k == k' then some v else lookupNF k r
+
+def St.tbl (s : St) : Opq → List (Str × Option Str)
+  | .dur => s.nfDur
+  | .unit => s.nfUnit
+  | .qty => s.nfQty
+
+def St.env (s : St) : Env where
+  norm := fun k x => match lookupNF x (s.tbl k) with
+    | some r => r
+    | none => none
+  normFloat := fun t => if t == "inf".toList || t == "-inf".toList || t == "nan".toList then none else some t
+
+partial def jsonStrings : Json → List Str
+  | .str s => [s]
+  | .arr xs => xs.flatMap jsonStrings
+  | .obj kvs => kvs.flatMap (fun p => jsonStrings p.2)
+  | _ => []
+
+partial def jsonDepth : Json → Nat
+  | .arr xs => 1 + (xs.map jsonDepth).foldl max 0
+  | .obj kvs => 1 + (kvs.map (fun p => jsonDepth p.2)).foldl max 0
+  | _ => 0
+
+partial def tyHasOpq : Ty → Bool
+  | .opq _ => true
+  | .opt t => tyHasOpq t
+  | .list t => tyHasOpq t
+  | .set t => tyHasOpq t
+  | .ann t => tyHasOpq t
+  | .union ts => ts.any tyHasOpq
+  | .model _ _ fs _ => fs.any (fun f => match f with
+      | .mk _ t _ _ => tyHasOpq t)
+  | _ => false
+
+def parseExtra : String → Option Extra
+  | "allow" => some .allow
+  | "ignore" => some .ignore
+  | "forbid" => some .forbid
+  | _ => none
+
+def St.schemaOf (s : St) (n : Str) : Option ESchema :=
+  match s.eff.find? (fun e => e.name == n) with
+  | some e => some e
+  | none =>
+    match Subtype.find s.defs n with
+    | some c => some { name := n, extra := effExtra s.defs c, fields := effFields s.defs n, consts := allConsts s.defs n }
+    | none => none
+
+/-- replace name-only references by the schemas, `fuel` levels deep; below that a type
+that accepts nothing (enough for any JSON value of that nesting depth) -/
+partial def expand (s : St) : Nat → Ty → Ty
+  | fuel, .opt t => .opt (expand s fuel t)
+  | fuel, .list t => .list (expand s fuel t)
+  | fuel, .set t => .set (expand s fuel t)
+  | fuel, .ann t => .ann (expand s fuel t)
+  | fuel, .union ts => .union (ts.map (expand s fuel))
+  | 0, .model _ _ _ _ => .union []
+  | fuel + 1, .model n _ _ _ =>
+    match s.schemaOf n with
+    | some e => .model n e.extra (e.fields.map (fun f => Field.mk f.1 (expand s fuel f.2.1) f.2.2.1 f.2.2.2)) e.consts
+    | none => .union []
+  | _, t => t
+
+partial def tyModels : Ty → List Str
+  | .opt t => tyModels t
+  | .list t => tyModels t
+  | .set t => tyModels t
+  | .ann t => tyModels t
+  | .union ts => ts.flatMap tyModels
+  | .model n _ _ _ => [n]
+  | _ => []
+
+def b2s (b : Bool) : String := if b then "T" else "F"
+
+def showRefusal : Except Refusal Unit → String
+  | .ok () => "ok"
+  | .error .typeError => "TypeError"
+  | .error .valueError => "ValueError"
+
+def parseFld (k : Tree) : Option (Str × Ty × Bool × Option Json) :=
+  match k with
+  | .node "fld" [.atom h, t, .atom r, d] =>
+    match unhexL h, parseTy t, (match d with
+      | .atom "-" => some none
+      | d => (parseJson d).map some) with
+    | some n, some ty, some dj =>
+      if r == "req" then some (n, ty, true, dj) else if r == "opt" then some (n, ty, false, dj) else none
+    | _, _, _ => none
+  | _ => none
+
+def parseDefFld (k : Tree) : Option (Str × Ty × Option Json) :=
+  match k with
+  | .node "fld" [.atom h, t, d] =>
+    match unhexL h, parseTy t, (match d with
+      | .atom "-" => some none
+      | d => (parseJson d).map some) with
+    | some n, some ty, some dj => some (n, ty, dj)
+    | _, _, _ => none
+  | _ => none
+
+def treeTag : Tree → String
+  | .atom a => a
+  | .node t _ => t
+
+/-- all strings that may reach a normaliser must have been declared -/
+def nfKnown (s : St) (t : Ty) (j : Json) : Bool :=
+  !(tyHasOpq t) || (jsonStrings j).all (fun x => (lookupNF x s.nfDur).isSome && (lookupNF x s.nfUnit).isSome && (lookupNF x s.nfQty).isSome)
+
+def withTyJson (s : St) (t j : String) (k : Ty → Json → String) : St × String :=
+  match (parseTerm t).bind parseTy, (parseTerm j).bind parseJson with
+  | some ty, some js =>
+    if (tyModels ty).all (fun n => (s.schemaOf n).isSome) then
+      let full := expand s (jsonDepth js + 2) ty
+      if nfKnown s full js then (s, k full js) else (s, "bad-op")
+    else (s, "bad-op")
+  | _, _ => (s, "bad-op")
+
+def step (s : St) : List String → St × String
+  | ["nf", kind, i, o] =>
+    match unhexL i, (if o == "!" then some none else (unhexL o).map some) with
+    | some x, some r =>
+      match kind with
+      | "dur" => ({ s with nfDur := (x, r) :: s.nfDur }, "ok")
+      | "unit" => ({ s with nfUnit := (x, r) :: s.nfUnit }, "ok")
+      | "qty" => ({ s with nfQty := (x, r) :: s.nfQty }, "ok")
+      | _ => (s, "bad-op")
+    | _, _ => (s, "bad-op")
+  | "cls" :: name :: extra :: parts =>
+    match parseExtra extra, allSome (parts.map parseTerm) with
+    | some e, some trees =>
+      let flds := trees.filter (fun t => treeTag t == "fld")
+      let csts := trees.filter (fun t => treeTag t == "const")
+      match allSome (flds.map parseFld), allSome (csts.map parseKV) with
+      | some fs, some cs =>
+        if flds.length + csts.length == trees.length then
+          ({ s with eff := s.eff ++ [{ name := name.toList, extra := e, fields := fs, consts := cs }] }, "ok")
+        else (s, "bad-op")
+      | _, _ => (s, "bad-op")
+    | _, _ => (s, "bad-op")
+  | "def" :: name :: parent :: extra :: parts =>
+    match (if extra == "-" then some none else (parseExtra extra).map some), allSome (parts.map parseTerm) with
+    | some e, some trees =>
+      let sel := fun (tag : String) => trees.filter (fun t => treeTag t == tag)
+      let names := fun (tag : String) => allSome ((sel tag).map (fun t => match t with
+        | .node _ [.atom h] => unhexL h
+        | _ => none))
+      match allSome ((sel "fld").map parseDefFld), allSome ((sel "const").map parseKV), names "ovr", names "mand" with
+      | some fs, some cs, some ovr, some mand =>
+        let co := (sel "constovr").length
+        if (sel "fld").length + (sel "const").length + ovr.length + mand.length + co == trees.length then
+          let c : ClassDef := { name := name.toList, parent := if parent == "-" then none else some parent.toList, extra := e,
+                                fields := fs, consts := cs, overrides := ovr, mandatory := mand, constOverride := co > 0 }
+          ({ s with defs := s.defs ++ [c] }, "ok")
+        else (s, "bad-op")
+      | _, _, _, _ => (s, "bad-op")
+    | _, _ => (s, "bad-op")
+  | ["build"] => (s, showRefusal (Subtype.build s.defs))
+  | ["dec", t, j] =>
+    withTyJson s t j (fun ty js =>
+      match decode s.env ty js with
+      | .ok v => showVal v
+      | .error _ => "err")
+  | ["encdec", t, j] =>
+    withTyJson s t j (fun ty js =>
+      match decode s.env ty js with
+      | .ok v => showJson (encode v)
+      | .error _ => "err")
+  | ["acc", t, j] => withTyJson s t j (fun ty js => b2s (accepts s.env ty js))
+  | ["enc", v] =>
+    match (parseTerm v).bind parseVal with
+    | some x => (s, showJson (encode x))
+    | none => (s, "bad-op")
+  | ["sub", a, b] =>
+    match (parseTerm a).bind parseTy, (parseTerm b).bind parseTy with
+    | some ta, some tb => (s, b2s (isSubtype s.defs ta tb))
+    | _, _ => (s, "bad-op")
+  | ["chk", n] =>
+    match Subtype.find s.defs n.toList with
+    | some _ => (s, "check:" ++ showRefusal (checkTypes s.defs n.toList))
+    | none => (s, "bad-op")
   | _ => (s, "bad-op")
 
-def main : IO Unit := Drv.run () step
+def main : IO Unit := Drv.run ({} : St) step
